@@ -1,5 +1,223 @@
-(* Props/C17.v — PLACEHOLDER created by the check-writer for local testing only; to be replaced by the
-   real theorems of property C17. *)
-Example C17_placeholder : True.
-Proof. exact I. Qed.
-Print Assumptions C17_placeholder.
+(* Props/C17.v — property C17: keyring parsing is complete, unambiguous, checksummed and crash-free.
+   Statements only; proofs are in Proofs/KeyringRefine.v and KeyringFacts.v.
+
+   Model: Keyring::parse_config over texts as lists of Unicode scalar values (lines, White_Space trimming, TAB
+   removal, split at the first '=', UTF-8 byte length for the 128-byte name bound), add_key with its duplicate
+   checks, get_key, get_name_from_key, encode/decode_public_key, serialize_key (Model/KeyringText.v, Keyring.v).
+   Declarative specification [accepts] (Model/KeyringSpec.v): the cleaned lines are blank/comment lines followed
+   by one or more sections "[Key]" body; each body has exactly one Name (valid: 1..128 bytes), exactly one
+   well-formed PublicKey, at most one well-formed PrivateKey, nothing else but blanks and comments; the entries
+   are the sections in order; names pairwise distinct, public-key strings pairwise distinct.
+   The parser theorems are proved for ARBITRARY key-string checks pk_ok / sk_ok and are INSTANTIATED HERE at the
+   real ones: [pk_string_ok] = EncodedPk::try_from(..).is_ok() (strict base64 of 36 bytes), [sk_string_ok] =
+   EncodedSk::try_from(..).is_ok() (strict base64 of 84 bytes).
+   All theorems are for EVERY text / every entry list.  (The TAB-in-name defect found on the pinned code was
+   repaired in /repo; [valid_key_name] here is the repaired check, and written_parses_back holds without
+   exception.)  Not covered here: the CLI's file handling around the keyring (C14). *)
+From Kestrel Require Import Bytes BytesFacts Outcome Prims.
+From Kestrel.gen Require Import Extracted.
+From Kestrel.Spec Require Import Base64 Base64Facts.
+From Kestrel.Model Require Import AeadWrap KeyringText KeyringSpec Keyring.
+From Kestrel.Proofs Require Import KeyringRefine KeyringFacts.
+Local Open Scope N_scope.
+
+(* ACCEPTANCE = SPECIFICATION, both directions, every text: parse_config returns Ok ks if and only if the text is accepted with entries ks by the declarative specification.  So a keyring is accepted ONLY IF every [Key] section has a valid name and a well-formed public key, private keys where present are well formed and no name or public key occurs twice — and on acceptance the entries are exactly the sections in order. *)
+Theorem C17_parse_refines_spec :
+  forall (t : text) (ks : list entry),
+  parse_config pk_string_ok sk_string_ok t = Ok ks <-> accepts pk_string_ok sk_string_ok t ks.
+Proof. exact (parse_refines_spec pk_string_ok sk_string_ok). Qed.
+Print Assumptions C17_parse_refines_spec.
+
+(* no input text makes the parser crash or loop: the result is Ok or Err *)
+Theorem C17_parse_total :
+  forall t : text, normal (parse_config pk_string_ok sk_string_ok t).
+Proof. exact (parse_total pk_string_ok sk_string_ok). Qed.
+Print Assumptions C17_parse_total.
+
+(* on acceptance names are pairwise distinct and public-key strings are pairwise distinct *)
+Theorem C17_names_and_keys_unique :
+  forall (t : text) (ks : list entry),
+  parse_config pk_string_ok sk_string_ok t = Ok ks -> NoDup (map k_name ks) /\ NoDup (map k_pub ks).
+Proof. exact (parse_names_nodup pk_string_ok sk_string_ok). Qed.
+Print Assumptions C17_names_and_keys_unique.
+
+(* on acceptance every entry has a valid name (1..128 bytes), a public key accepted by EncodedPk::try_from and, if present, a private key accepted by EncodedSk::try_from *)
+Theorem C17_entries_valid :
+  forall (t : text) (ks : list entry),
+  parse_config pk_string_ok sk_string_ok t = Ok ks ->
+  Forall
+    (fun k : entry =>
+     valid_key_name (k_name k) = true /\
+     pk_string_ok (k_pub k) = true /\ (forall s : text, k_priv k = Some s -> sk_string_ok s = true)) ks.
+Proof. exact (parse_entries_valid pk_string_ok sk_string_ok). Qed.
+Print Assumptions C17_entries_valid.
+
+(* an accepted keyring has at least one key *)
+Theorem C17_parse_nonempty :
+  forall (t : text) (ks : list entry), parse_config pk_string_ok sk_string_ok t = Ok ks -> ks <> [].
+Proof. exact (parse_nonempty pk_string_ok sk_string_ok). Qed.
+Print Assumptions C17_parse_nonempty.
+
+(* with distinct names, a lookup by an entry's name returns exactly that entry: at most one answer *)
+Theorem C17_lookup_by_name_unique :
+  forall (ks : list entry) (k : entry),
+  NoDup (map k_name ks) -> In k ks -> get_key ks (k_name k) = Some k.
+Proof. exact (get_key_unique). Qed.
+Print Assumptions C17_lookup_by_name_unique.
+
+(* with distinct public keys, a lookup by an entry's public key returns exactly that entry's name *)
+Theorem C17_lookup_by_key_unique :
+  forall (ks : list entry) (k : entry),
+  NoDup (map k_pub ks) -> In k ks -> get_name_from_key ks (k_pub k) = Some (k_name k).
+Proof. exact (get_name_unique). Qed.
+Print Assumptions C17_lookup_by_key_unique.
+
+(* in general a lookup returns an entry of the list with the requested name *)
+Theorem C17_lookup_by_name_sound :
+  forall (ks : list entry) (n : text) (k : entry), get_key ks n = Some k -> In k ks /\ k_name k = n.
+Proof. exact (get_key_some). Qed.
+Print Assumptions C17_lookup_by_name_sound.
+
+(* EVERY KEYRING THE TOOL WRITES PARSES BACK: for every list of entries with generator-accepted names (valid, trimmed, no newline), well-formed key strings, pairwise distinct names and pairwise distinct public keys, the text the tool writes (serialize_key outputs separated by newlines) parses to exactly those entries *)
+Theorem C17_written_parses_back :
+  forall es : list entry,
+  es <> [] ->
+  Forall (gen_entry_ok pk_string_ok sk_string_ok) es ->
+  NoDup (map k_name es) ->
+  NoDup (map k_pub es) -> parse_config pk_string_ok sk_string_ok (keyring_text es) = Ok es.
+Proof. exact (written_parses_back pk_string_ok sk_string_ok). Qed.
+Print Assumptions C17_written_parses_back.
+
+(* one generated key alone *)
+Theorem C17_single_key_parses_back :
+  forall e : entry,
+  gen_entry_ok pk_string_ok sk_string_ok e ->
+  parse_config pk_string_ok sk_string_ok (entry_text e) = Ok [e].
+Proof. exact (parse_single_key pk_string_ok sk_string_ok). Qed.
+Print Assumptions C17_single_key_parses_back.
+
+(* appending "\n" ++ a generated key to ANY accepted keyring text (whether or not it ends in a newline, with comments, ...) yields a text that parses to the old entries followed by the new one *)
+Theorem C17_append_key_parses :
+  forall (t0 : text) (ks0 : list entry) (e : entry),
+  parse_config pk_string_ok sk_string_ok t0 = Ok ks0 ->
+  gen_entry_ok pk_string_ok sk_string_ok e ->
+  ~ In (k_name e) (map k_name ks0) ->
+  ~ In (k_pub e) (map k_pub ks0) ->
+  parse_config pk_string_ok sk_string_ok (t0 ++ [c_nl] ++ entry_text e) = Ok (ks0 ++ [e]).
+Proof. exact (parse_append_key pk_string_ok sk_string_ok). Qed.
+Print Assumptions C17_append_key_parses.
+
+(* the entry that key generation writes satisfies the writer-side conditions (for the real encodings) *)
+Theorem C17_generated_entry_is_ok :
+  forall P : prims,
+  aead_ok P ->
+  hash_ok P ->
+  prims_bytes_ok P ->
+  forall (name : text) (sk : list N) (pw : bytes) (salt : list N),
+  gen_name_ok name ->
+  length sk = 32%nat ->
+  bytes_ok sk ->
+  length salt = 32%nat ->
+  bytes_ok salt ->
+  exists epk esk : text,
+    encode_public_key P (dh_pub P sk) = Ok epk /\
+    lock_private_key P sk pw salt = Ok esk /\
+    gen_entry_ok pk_string_ok sk_string_ok {| k_name := name; k_pub := epk; k_priv := Some esk |}.
+Proof. exact (gen_entry_is_ok). Qed.
+Print Assumptions C17_generated_entry_is_ok.
+
+(* CHECKSUM: an encoded public key accepted by EncodedPk::try_from decodes to pk IF AND ONLY IF its 36 bytes are pk followed by the first 4 bytes of SHA-256(pk) *)
+Theorem C17_checksum :
+  forall P : prims,
+  hash_ok P ->
+  forall (e : text) (pk : bytes),
+  pk_string_ok e = true ->
+  decode_public_key P e = Ok pk <->
+  (exists b : bytes, b64_decode e = Some b /\ pk = firstn 32 b /\ skipn 32 b = firstn 4 (p_hash P pk)).
+Proof. exact (decode_checksum). Qed.
+Print Assumptions C17_checksum.
+
+(* otherwise the result is exactly the PublicKeyChecksum error *)
+Theorem C17_checksum_mismatch_is_error :
+  forall P : prims,
+  hash_ok P ->
+  forall e : text,
+  pk_string_ok e = true ->
+  (forall pk : bytes, decode_public_key P e <> Ok pk) -> decode_public_key P e = Err PublicKeyChecksum.
+Proof. exact (decode_checksum_err). Qed.
+Print Assumptions C17_checksum_mismatch_is_error.
+
+(* never a panic on accepted strings *)
+Theorem C17_decode_never_panics :
+  forall P : prims,
+  hash_ok P ->
+  forall e : text,
+  pk_string_ok e = true ->
+  (exists pk : bytes, decode_public_key P e = Ok pk) \/ decode_public_key P e = Err PublicKeyChecksum.
+Proof. exact (decode_never_panics). Qed.
+Print Assumptions C17_decode_never_panics.
+
+(* round trip: every 32-byte public key encodes to a 48-character string that EncodedPk::try_from accepts and that decodes back to it *)
+Theorem C17_decode_encode_pk :
+  forall P : prims,
+  hash_ok P ->
+  prims_bytes_ok P ->
+  forall pk : list N,
+  length pk = 32%nat ->
+  bytes_ok pk ->
+  exists e : text,
+    encode_public_key P pk = Ok e /\
+    pk_string_ok e = true /\ length e = 48%nat /\ decode_public_key P e = Ok pk.
+Proof. exact (decode_encode_pk). Qed.
+Print Assumptions C17_decode_encode_pk.
+
+(* different public keys have different encodings *)
+Theorem C17_encode_pk_injective :
+  forall P : prims,
+  hash_ok P ->
+  prims_bytes_ok P ->
+  forall (pk1 pk2 : bytes) (e : text),
+  bytes_ok pk1 ->
+  bytes_ok pk2 -> encode_public_key P pk1 = Ok e -> encode_public_key P pk2 = Ok e -> pk1 = pk2.
+Proof. exact (encode_pk_inj). Qed.
+Print Assumptions C17_encode_pk_injective.
+
+(* EncodedPk::try_from accepts exactly the strict base64 strings of 36 bytes *)
+Theorem C17_pk_string_ok_iff :
+  forall s : text,
+  pk_string_ok s = true <-> (exists b : bytes, b64_decode s = Some b /\ length b = 36%nat).
+Proof. exact (pk_string_ok_iff). Qed.
+Print Assumptions C17_pk_string_ok_iff.
+
+(* accepted public-key strings have 48 characters *)
+Theorem C17_pk_string_length :
+  forall s : text, pk_string_ok s = true -> length s = 48%nat.
+Proof. exact (pk_string_ok_length). Qed.
+Print Assumptions C17_pk_string_length.
+
+(* the generator end to end: a key generated (fresh name, fresh encoded key) and appended to an accepted keyring text parses back as the last entry, with the names and keys that were written, and is usable *)
+Theorem C17_generated_keys_usable :
+  forall P : prims,
+  aead_ok P ->
+  hash_ok P ->
+  prims_bytes_ok P ->
+  forall (t0 : text) (ks0 : list entry) (name : text) (sk : list N) (pw : bytes) 
+    (salt : list N) (txt epk : text),
+  gen_name_ok name ->
+  length sk = 32%nat ->
+  bytes_ok sk ->
+  length salt = 32%nat ->
+  bytes_ok salt ->
+  parse_config pk_string_ok sk_string_ok t0 = Ok ks0 ->
+  gen_key_text P name sk pw salt = Ok txt ->
+  encode_public_key P (dh_pub P sk) = Ok epk ->
+  ~ In name (map k_name ks0) ->
+  ~ In epk (map k_pub ks0) ->
+  exists esk : text,
+    parse_config pk_string_ok sk_string_ok (t0 ++ [c_nl] ++ txt) =
+    Ok (ks0 ++ [{| k_name := name; k_pub := epk; k_priv := Some esk |}]) /\
+    unlock_private_key P esk pw = Ok sk /\
+    decode_public_key P epk = Ok (dh_pub P sk) /\ extract_pub P esk pw = Ok (s_pub ++ s_sp_eq_sp ++ epk).
+Proof. exact (generated_keys_usable). Qed.
+Print Assumptions C17_generated_keys_usable.
+
